@@ -31,9 +31,9 @@ impl CredentialHolder for MutHolder {
 
 fn pem_chain_to_der(pem: &[u8]) -> Vec<Vec<u8>> { x509_parser::pem::Pem::iter_from_buffer(pem).filter_map(|p| p.ok()).map(|p| p.contents).collect() }
 
-fn read_cawg(c: &std::sync::Arc<Context>, bytes: &[u8], rt: &tokio::runtime::Runtime) -> Value {
+fn read_cawg(c: &std::sync::Arc<Context>, mime: &str, bytes: &[u8], rt: &tokio::runtime::Runtime) -> Value {
     let r = catch(AssertUnwindSafe(|| rt.block_on(async {
-        let mut reader = Reader::from_shared_context(c).with_stream_async("image/jpeg", Cursor::new(bytes.to_vec())).await.map_err(|e| err_kind(&e))?;
+        let mut reader = Reader::from_shared_context(c).with_stream_async(mime, Cursor::new(bytes.to_vec())).await.map_err(|e| err_kind(&e))?;
         let before = state_str(&reader).to_string();
         let v = CawgValidator::new(c);
         reader.post_validate_async(&v).await.map_err(|e| format!("post:{:?}", e))?;
@@ -52,6 +52,8 @@ pub fn run(_args: &[String]) {
         let mode = v["mode"].as_str().unwrap_or("ok").to_string();
         let refs: Vec<String> = v["refs"].as_array().map(|a| a.iter().map(|x| x.as_str().unwrap().to_string()).collect()).unwrap_or_default();
         let calg = v["cawg_alg"].as_str().unwrap_or("ed25519");
+        // the asset format (its hard binding is c2pa.hash.data for JPEG / PNG, c2pa.hash.bmff.v3 for MP4)
+        let (mime, fx) = match v["format"].as_str().unwrap_or("jpeg") { "png" => ("image/png", "libpng-test.png"), "mp4" => ("video/mp4", "video1_no_manifest.mp4"), _ => ("image/jpeg", "no_manifest.jpg") };
         let res = catch(AssertUnwindSafe(|| -> Value {
             let c2pa_raw = match c2pa_raw_crypto::signer_from_private_key(&fixture("certs/es256.pem"), c2pa::SigningAlg::Es256) { Ok(s) => s, Err(e) => return json!({"sign": format!("rawsigner:{e}")}) };
             let cawg_raw = match c2pa_raw_crypto::signer_from_private_key(&fixture(&format!("certs/{calg}.pem")), alg_of(calg)) { Ok(s) => s, Err(e) => return json!({"sign": format!("rawsigner:{e}")}) };
@@ -61,13 +63,13 @@ pub fn run(_args: &[String]) {
             let r: Vec<&str> = refs.iter().map(|s| s.as_str()).collect();
             iab.add_referenced_assertions(&r);
             ias.add_identity_assertion(iab);
-            let def = json!({"title": "c33", "format": "image/jpeg", "claim_generator_info": [{"name": "vh", "version": "0.1"}],
+            let def = json!({"title": "c33", "format": mime, "claim_generator_info": [{"name": "vh", "version": "0.1"}],
                 "assertions": [{"label": "c2pa.actions", "data": {"actions": [{"action": "c2pa.created", "digitalSourceType": "http://cv.iptc.org/newscodes/digitalsourcetype/digitalCapture"}]}},
                                {"label": "org.vh.alpha", "data": {"marker": "VHC33-ALPHA-PAYLOAD"}}, {"label": "org.vh.beta", "data": {"marker": "VHC33-BETA-PAYLOAD"}}, {"label": "org.vh.gamma", "data": {"marker": "VHC33-GAMMA-PAYLOAD"}}]});
             let sctx = ctx(&json!({"verify": {"remote_manifest_fetch": false, "verify_after_sign": false}}));
             let mut b = match Builder::from_context(sctx).with_definition(def.to_string().as_str()) { Ok(b) => b, Err(e) => return json!({"sign": format!("definition:{}", err_kind(&e))}) };
             let mut dst = Cursor::new(Vec::new());
-            if let Err(e) = b.sign(&ias, "image/jpeg", &mut Cursor::new(fixture("no_manifest.jpg")), &mut dst) { return json!({"sign": format!("err:{}", err_kind(&e)), "detail": format!("{e:?}").chars().take(300).collect::<String>()}); }
+            if let Err(e) = b.sign(&ias, mime, &mut Cursor::new(fixture(fx)), &mut dst) { return json!({"sign": format!("err:{}", err_kind(&e)), "detail": format!("{e:?}").chars().take(300).collect::<String>()}); }
             let bytes = dst.into_inner();
             let mut reads = vec![];
             for rs in v["reads"].as_array().cloned().unwrap_or_default() {
@@ -90,7 +92,7 @@ pub fn run(_args: &[String]) {
                         }
                     }
                 }
-                reads.push(json!({"name": rs["name"], "pad": pad_info, "read": read_cawg(&c, &data, &rt)}));
+                reads.push(json!({"name": rs["name"], "pad": pad_info, "read": read_cawg(&c, mime, &data, &rt)}));
             }
             json!({"sign": "ok", "reads": reads})
         }));
